@@ -13,9 +13,9 @@ float use_scalar_f(float x, float a, float b, float c)
          linear_to_srgb(x);
 }
 
-double use_scalar_d(double x)
+double use_scalar_d(double x, double a, double b, double c, float f)
 {
-  return rcp(x) + rcp_safe(x) + rsqrt(x);
+  return rcp(x) + rcp_safe(x) + rsqrt(x) + clamp(x, a, b) + deg2rad(x) + madd(a, b, c) + lerp(f, a, b);
 }
 
 unsigned long use_scalar_i(int a, int b, int c, unsigned ua, unsigned ub, size_t sa, size_t sb, int64_t la, int64_t lb)
